@@ -11,7 +11,7 @@ THEOREMS = ["C07_multiples_of_147", "C07_tempo_closed_form", "C07_tempo_step_le_
             "C07_tick_delivery_all_passes", "C07_log_by_updates", "C07_schedule_fm_partial",
             "C07_tempo_table_partial", "C07_schedule_fm_tempo_partial", "C07_slur_update_partial", "C07_psg_update_partial",
             "C07_list_machine_times", "C07_export_extent_noloop_partial", "C07_export_covers_first_pass_partial",
-            "C07_schedule_fm_slur_partial", "C07_schedule_psg_partial"]
+            "C07_schedule_fm_slur_partial", "C07_schedule_psg_partial", "C07_loop_marker_partial"]
 LEVEL = "proof"
 STREAM = "vgm.bytes"
 CHUNK = 25
@@ -29,14 +29,16 @@ LEVEL_TEXT = ("Machine-checked theorems over Model/MdDriver.lean. Clock: the pla
               "without SLUR every update k of the log writes key-off / key-on (last) iff the events of ticks N_k..N_{k+1}-1 call for them "
               "(C07_schedule_fm_partial, C07_schedule_fm_tempo_partial), and with slurs the slur flag and the suppressed key writes follow the tick stream update by update (C07_schedule_fm_slur_partial); for a PSG melody channel the last attenuation write of a key-on update is psgAtt(volume, first envelope level) and 15 in the update in which the track ends (C07_schedule_psg_partial); per update: slurred FM notes (no key-off, no key-on, pitch only), PSG "
               "attenuation at key-on and 15 at the end of the track (C07_slur_update_partial, C07_psg_update_partial); extent of the log for a track "
-              "without loop point (C07_export_extent_noloop_partial), and for any loop structure the log covers the whole first pass (C07_export_covers_first_pass_partial). Closed form of the tempo accumulator, antitonicity of the attenuation formulas, "
+              "without loop point (C07_export_extent_noloop_partial), and for any loop structure the log covers the whole first pass (C07_export_covers_first_pass_partial); loop marker: loop_trigger after an update = loop_trigger before or a SEGNO/END among the delivered events (trigChain, the loop_trigger instance of the chain), and for one channel track update k writes set_loop iff a SEGNO is delivered in the ticks N_k..N_{k+1}-1 and the channel plays on - once per loop point, in the update that reads it, in no other update (C07_loop_marker_partial). Closed form of the tempo accumulator, antitonicity of the attenuation formulas, "
               "soundness of the regenerated frequency tables. The model reproduces every real file byte for byte; the schedule oracle judges every real export.")
 LEVEL_NOTE = ("Partial: the whole-log theorems are for songs with ONE channel track (plus subroutine tracks); SegTop (every SEGNO at the top level of the "
               "channel's own track) is a hypothesis of the all-pass theorems - outside it the real player resumes elsewhere (known findings segno-in-sub, "
               "segno-in-loop); the PSG theorem reads the volume setting and the envelope off the channel state (their derivation from the VOL/INS commands is the oracle's); C07_pitch_value_partial gives "
               "the computed/written words, not the register-file replay; export_extent is proved for tracks without loop point only - for looping songs "
-              "C07_log_by_updates says when set_loop/stop happen in terms of loop_trigger/get_loop_count, the loop-count lemma (reset position re-crossed "
-              "one loop length after the marker) is NOT proved. These, several channels (tempo commands of all channels compete in track order), and "
+              "C07_log_by_updates says when set_loop/stop happen in terms of loop_trigger/get_loop_count and C07_loop_marker_partial places the marker (extra hypotheses: "
+              "one channel track, SegTop, ItemOK = the hook is never shown an END and a SEGNO only when one was read, and no update that delivers a SEGNO also jumps "
+              "back to it - with a loop section shorter than the rest of that update the real code writes NO marker and stops, known finding short-loop); the loop-count lemma (reset position re-crossed "
+              "one loop length after the marker: the upper end of the extent of a looping log) is NOT proved. These, several channels (tempo commands of all channels compete in track order), and "
               "max_seconds stay in C07_full_statement, decided per export by the spec oracle (Spec/Schedule on the real VGM log) and by byte-exact "
               "correspondence. Trusted: Lean kernel, Model/MdDriver.lean + PlayerCh + Vgm (agreement with the C++ by differential testing), "
               "Spec/Schedule.lean, Spec/VgmParse.lean.")
@@ -408,6 +410,9 @@ CORPUS = [
     # a loop section that takes no time ends the track; two loop points at the top level
     "mdvgm T0:2.40.2.0,7.0.0.0,13.5.0.0",
     "mdvgm T0:2.40.2.0,7.0.0.0,2.41.1.1,7.0.0.0,2.42.2.2",
+    # a loop section of one tick at two ticks per update: loop point, jump back and reset position in ONE update - no loop marker,
+    # the export stops after that update (known finding short-loop; non-vacuity example of C07_loop_marker_partial)
+    "mdvgm T0:27.255.0.0,1.0.0.1,7.0.0.0,2.40.1.0",
     # structural errors
     "mdvgm T0:2.40.2.2,6.2.0.0",
     "mdvgm T0:8.300.0.0",
